@@ -4,10 +4,9 @@ CONSTANTS
   Cap = 2
   M = 8
   MarkMod = 8
-  Prod = {1, 2}
-  Cons = {3, 4}
-  Prog <- Prog_pp
-  StartSet = {7}
+  Prod = {1}
+  Cons = {3}
+  Prog <- Prog_w_pp
+  StartSet = {0, 5, 6, 7}
   Bug = "none"
 INVARIANTS ExactlyOnce FifoLinearizable PerProducerOrder CapacityBound NoTornSlot
-
